@@ -70,6 +70,7 @@ def configs(tier):
                 out.append(dict(kind='phase', phase=ph, cause=cause))
         else:
             out.append(dict(kind='phase', phase=ph, cause=None))
+    out += [dict(c, persist=True) for c in out if c['phase'] in ('running', 'sync-init', 'async-init', 'built', 'finished')]
     # an error inside the simulation task (failing output function, unstable network, failing
     # monitored task): from the moment it happened - in every following loop iteration - the
     # circuit is not running any more
@@ -145,10 +146,16 @@ def run_phase(cfg, acc):
             'init_regular': ('set', 0),
             'on_event': lambda blk, et, data: seen.append(('repeat', et, dict(data)))})
         probes = ProbeS('probeS', seen=seen)
-        inp = RecInput('input', seen=seen, initdef='i')
-        fsm = RecFSM('fsm', x_seen=seen)
+        pkw = {}
+        if cfg.get('persist'):
+            # destinations that save their state after each event (the event goes through one
+            # more layer, which must pass the handler's result on)
+            pkw = {'persistent': True}
+            circuit.set_persistent_data({})
+        inp = RecInput('input', seen=seen, initdef='i', **pkw)
+        fsm = RecFSM('fsm', x_seen=seen, **pkw)
         rpt = edzed.Repeat('repeat', dest=probe2, etype='rp', interval=1000)
-        cnt = edzed.Counter('counter')
+        cnt = edzed.Counter('counter', **pkw)
         dests = {'probe': (probe, 'anything'), 'probeS': (probes, 'xyz'), 'input': (inp, 'put'),
                  'fsm': (fsm, 'go'), 'repeat': (rpt, 'rp'), 'counter': (cnt, 'inc')}
         senders = {}
@@ -186,7 +193,7 @@ def run_phase(cfg, acc):
                     new = [r for r in seen[n0:] if 'source' in r[2]]
                     tag = (f"{label}: ExtEvent({kind}{' by name' if byname else ''}, source={cs!r})"
                            f".send(*{args!r}, **{kwargs!r})")
-                    acc.outcome((phase, cause, kind, cs, si, type(raised).__name__,
+                    acc.outcome((phase, cause, bool(cfg.get('persist')), kind, cs, si, type(raised).__name__,
                                  repr(new[0][2]) if new else None))
                     if not deliver or exp is TypeError:
                         want = edzed.EdzedInvalidState if not deliver else TypeError
